@@ -30,6 +30,7 @@ CONSTANTS
   SubTargets = {}
   AutoVals = {TRUE, FALSE}
   SubOneshot = {FALSE}
+  UdVals = {0}
   Senders = {}
   QuitCodes = {0, 1}
   ForeignOps = {}
